@@ -178,6 +178,29 @@ def scenario_for(seed, index, tier):
                                     'play': [['await']] + sc['items']}
         sc['variant'] = 'negative-threshold-in-force'
         return sc
+    if rng.random() < 0.05 and 47 in common.supported():
+        # protocol 47 also knows a play-state Set Compression: the framing
+        # changes in mid-stream, after packets that were still in the old
+        # format (no keep-alives before it: their answers would race with
+        # the switch - a weakness of the protocol, not of the client)
+        sc = base_scenario(rng, proto=47, small=rng.random() < 0.5)
+        T = sc['threshold']
+        if T is not None and T >= 0:
+            items = sc['items']
+            cut = rng.randint(0, len(items))
+            before = [it for it in items[:cut] if it[0] != 'ka']
+            sc['items'] = before + [['compress', T]] + items[cut:]
+            sc['play_switch'] = True
+            login = [s_ for s_ in sc['server']['conns'][0]['login']
+                     if s_[0] != 'compress']
+            sc['server']['conns'][0] = {'login': login, 'play': sc['items']}
+            sc['variant'] = 'play-state-compression-switch'
+            if rng.random() < 0.5:
+                sc['net']['segment'] = True
+                sc['net']['short_read'] = True
+                sc['net']['max_seg'] = rng.choice([1, 7, 64, 1000])
+            return sc
+        sc = base_scenario(rng, small=rng.random() < 0.3)
     if rng.random() < 0.2:
         # the same Connection is used for a second session with its own
         # framing mode: nothing of the first may leak into it
@@ -236,6 +259,9 @@ def expected_incoming(ids, items):
             out.append((ids['cb.play.time'], 'time', (it[1], it[2])))
         elif op == 'ka':
             out.append((ids['cb.play.keep_alive'], 'ka', (it[1],)))
+        elif op == 'compress':
+            out.append((ids['cb.play.set_compression'], 'set compression',
+                        ()))
     return out
 
 
@@ -348,6 +374,10 @@ def _execute(scenario, tape, want_world=False):
                     app0 = w.server.apps[k]
                     w.sim.after(0, lambda: w.server.release(
                         app0, sc['threshold']), 'release')
+                if sc.get('play_switch') and not c['errs']:
+                    # our own packets only once the switch has been seen
+                    w.wait_until(lambda: c['errs'] or
+                                 conn.options.compression_enabled, 30000000)
                 if not c['errs']:
                     for wi, wr in enumerate(sc['writes']):
                         if wr[0] == 'plugin':
